@@ -44,7 +44,7 @@ man = {
                                 "closures, context managers, record classes, property factories and constants folded back - DESIGN.md section 20)"}],
  "checks": checks,
  "notes": "static analysis only: no check imports or runs magpylib. Partial claims: each check decides the structural clause(s) named in level_claimed.text; see DESIGN.md. "
-          "The thorough tier adds the self-validation of the checker: must-fire mutants and detected seeds, and 225 independent behaviour-preserving refactorings (/verif/twins) "
+          "The thorough tier adds the self-validation of the checker: must-fire mutants and detected seeds, and 375 independent behaviour-preserving refactorings (/verif/twins, minus the few listed with a reason in twins/EXPECTED.json) "
           "that must stay silent.",
  "not_applicable": na,
 }
